@@ -23,6 +23,7 @@ def observe(schema, m, ty, R=None, C=None, dictback=False):
         o["val"] = dyn.obs_bp(schema, m, ty)
         o["len"] = len(m)                   # (before bytes(): a size computed / cached earlier must still be right)
         o["wire"] = list(bytes(m))
+        o["rteq"] = bool(type(m)().parse(bytes(o["wire"])) == m)
         s = io.BytesIO()
         m.dump(s)
         o["dump"] = list(s.getvalue())
@@ -98,8 +99,45 @@ def rand_value(schema, f, rnd, allow_unset=True):
     return with_fresh(v)
 
 
+BAD_TAILS = [[0x08, 0x80], [0x0F], [0xFA, 0x01, 0x05, 0x61, 0x62], [0x0D, 0x01], [0x0A, 0xFF, 0xFF, 0xFF, 0xFF, 0xFF, 0xFF, 0xFF, 0xFF, 0xFF, 0xFF, 0x01]]
+# (members that from_dict converts - and therefore rejects when they cannot be converted; 32-bit numbers are stored as given)
+BAD_JSON = {"enum": "NO_SUCH_MEMBER", "int64": "12x", "sint64": "12x", "uint64": "12x", "fixed64": "12x", "sfixed64": "12x", "timestamp": "yesterday", "duration": "soon"}
+
+
 def gen_history(schema, ty, rnd, n, emphasis=None):
-    """abstract op list; emphasis in {None, 'oneof', 'observers', 'presence'}"""
+    """abstract op list; emphasis in {None, 'oneof', 'observers', 'presence', ...}.  Some histories additionally contain an
+    operation that is *rejected* (malformed bytes, an invalid document) on the live object; the history goes on afterwards."""
+    import json
+    import random
+    import zlib
+    ops = _gen_history(schema, ty, rnd, n, emphasis)
+    r2 = random.Random(zlib.crc32(json.dumps([ty, ops], sort_keys=True).encode()))      # (independent of rnd: the histories themselves stay as they were)
+    if r2.random() < .3 and ty != "Nil":
+        at = r2.randint(1, len(ops))
+        if r2.random() < .6:
+            # valid fields first (they may select another oneof member, extend lists ...), then a tail no decoder can accept
+            bad = {"op": "parse_bad", "src": gen.rmsg(schema, ty, r2, density=r2.choice([0.1, 0.3, 0.6])), "tail": r2.choice(BAD_TAILS)}
+        else:
+            kw = []
+            mem = members(schema, ty)
+            cand = [f for f in schema["types"][ty] if f["card"] in ("implicit", "optional") and f["kind"] in BAD_JSON]
+            if not cand:
+                return ops
+            badf = r2.choice(cand)
+            for f in r2.sample(schema["types"][ty], min(len(schema["types"][ty]), r2.randint(1, 4))):
+                if f is badf or (f["card"] == "oneof" and any(x[0] in {g["name"] for g in mem if g["group"] == f["group"]} for x in kw)):
+                    continue
+                v = rand_value(schema, f, r2, allow_unset=False)
+                if v.get("k") == "msg" and v.get("fresh"):
+                    continue
+                kw.append([f["name"], v])
+            bad = {"op": "fromdict_bad", "kw": kw, "badkey": dyn.py(badf).rstrip("_"), "badval": BAD_JSON[badf["kind"]]}
+        ops.insert(at, bad)
+        ops.insert(at + 1, {"op": r2.choice(["observe", "bytes", "eqself", "todict"])})
+    return ops
+
+
+def _gen_history(schema, ty, rnd, n, emphasis=None):
     fields = schema["types"][ty]
     mem = members(schema, ty)
     msgf = [f for f in fields if f["kind"] == "message" and f["card"] in ("implicit", "optional", "oneof") and schema["types"][f["msg"]]]
@@ -312,6 +350,23 @@ def run_history(schema, C, ty, ops, R=None, reread=False, dictback=False):
                 b = bytes(dyn.conc_bp(schema, C, ty, op["src"])) + b"".join(UNKNOWN[i] for i in op.get("unk", []))
                 e["b"] = list(b)
                 m.parse(b)
+            elif k == "parse_bad":
+                b = bytes(dyn.conc_bp(schema, C, ty, op["src"])) + bytes(op["tail"])
+                e["b"] = list(b)
+                try:
+                    m.parse(b)
+                    return log               # (whether malformed input is rejected is C17's subject)
+                except Exception as ex:          # the caller handles the rejection and keeps using the object
+                    e["res"] = "rejected:" + type(ex).__name__
+            elif k == "fromdict_bad":
+                d = kw_to_dict(schema, C, ty, op["kw"])
+                d[op["badkey"]] = op["badval"]         # (last member of the document)
+                e["kw"] = []
+                try:
+                    m.from_dict(d)
+                    return log               # (taken as it is: not a rejection, and what such an object is worth is nobody's claim)
+                except Exception as ex:
+                    e["res"] = "rejected:" + type(ex).__name__
             elif k == "fromdict_cls":
                 d = kw_to_dict(schema, C, ty, op["kw"])
                 e["kw"] = [x for x in op["kw"] if _in_dict(d, x[0])]
@@ -364,7 +419,7 @@ def run_history(schema, C, ty, ops, R=None, reread=False, dictback=False):
             e["res"] = type(ex).__name__ + ":" + str(ex)[:60]
         e["obs"] = observe(schema, m, ty, R, C if (reread or dictback) else None, dictback)
         log.append(e)
-        if e["res"] not in ("ok", "AttributeError"):
+        if e["res"] not in ("ok", "AttributeError") and not e["res"].startswith("rejected:"):
             break
     return log
 
